@@ -33,7 +33,7 @@ def _case(draw):
                            patterns=("interleaved", "random", "dense", "banks") if gen == "NP2.4" else ("dense", "random")))
     spec["n_acq"] = spec["n"]
     spec["nsync"] = 1
-    spec["fs"] = 30000.0
+    # the calibrated sampling rate drawn by st_spec is kept (30000 or a measured value next to it)
     w1 = 12 * draw(st.integers(100, 2500))
     w2 = 12 * draw(st.integers(100, 2500).filter(lambda v: True))
     if w2 == w1:
